@@ -344,6 +344,12 @@ func runC06Jwt(rep *TReport, raw json.RawMessage) {
 	default:
 		panic("unknown jwt mutation " + r.Mut)
 	}
+	// the server has seen (and accepted) the genuine tokens before the manipulated one arrives, as it would in production:
+	// nothing a validation leaves behind may vouch for a different token later
+	for _, g := range []string{tok, other} {
+		_, _, gerr := w.Provider.IntrospectToken(w.ctx(1), g, fosite.AccessToken, NewSess(""))
+		rep.cmp(raw, "genuine_jwt_accepted_first", true, gerr == nil, false)
+	}
 	before, _ := json.Marshal(w.Project())
 	_, _, err := w.Provider.IntrospectToken(w.ctx(1), mutated, fosite.AccessToken, NewSess(""))
 	rep.cmp(raw, "jwt_access_token_accepted", r.Accept, err == nil, false)
